@@ -186,6 +186,26 @@ Theorem C05_staticlib_modifier_hashed : forall f modifiers name d,
 Proof. exact static_modifiers_looked_up. Qed.
 Print Assumptions C05_staticlib_modifier_hashed.
 
+(* the compile command (what a cache MISS runs and whose diagnostics are stored under the key): the request's own
+   arguments with every `--color` removed — they are not part of the key — followed by a colour option that depends
+   only on whether `--json` was given.  So one key never stands for compiles with different colour settings *)
+Theorem C05_compile_command_colour : forall ex argv cwd p,
+  parse_arguments ex argv cwd = PROk p ->
+  forallb (fun a => negb (is_color a)) (p_args p) = true /\
+  p_arguments p = map arg_pair (p_args p) /\
+  compile_args p = flat_map iter_os_strings (p_args p) ++ colour_suffix (existsb is_json (p_args p)).
+Proof. exact compile_command_colour. Qed.
+Print Assumptions C05_compile_command_colour.
+
+(* "the compiler itself": the files of <sysroot>/lib whose digests enter the key are exactly the `*.so` entries that
+   are regular files or symbolic links to regular files (Nix / stow / distribution layouts link them) *)
+Theorem C05_sysroot_libs_complete : forall libdir entries f,
+  In f (sysroot_libs libdir entries) <->
+  exists e, In e entries /\ resolves_to_file (snd e) = true /\ extension_is (bs "so") (fst e) = true /\
+            f = path_join libdir (fst e).
+Proof. exact sysroot_libs_complete. Qed.
+Print Assumptions C05_sysroot_libs_complete.
+
 (* ---------- non-vacuity ---------- *)
 
 Example dep_paths_ok_example :
@@ -221,6 +241,22 @@ Example example_modifier_hashed :
           [bs "--crate-name"; bs "foo"; bs "src/lib.rs"; bs "--crate-type"; bs "lib"; bs "--emit=link"; bs "--out-dir"; bs "out";
            bs "-l"; bs "static:+whole-archive=foo"; bs "-L"; bs "native=own"] (bs "/w") with
   | PROk p => p_staticlibs p = [bs "/w/own/libfoo.a"]
+  | _ => False
+  end.
+Proof. vm_compute. reflexivity. Qed.
+
+Example example_sysroot_libs :
+  sysroot_libs (bs "/s/lib") [(bs "librustc_driver-1.so", KSymFile); (bs "libLLVM.so.22.1", KFile); (bs "rustlib", KDir);
+                              (bs "libstd-2.so", KFile); (bs "gone.so", KSymDangling); (bs "d.so", KSymDir)]
+  = [bs "/s/lib/librustc_driver-1.so"; bs "/s/lib/libstd-2.so"].
+Proof. vm_compute. reflexivity. Qed.
+
+Example example_compile_args :
+  match parse_arguments (fun _ => false)
+          [bs "--crate-name"; bs "foo"; bs "--color=never"; bs "src/lib.rs"; bs "--crate-type"; bs "lib"; bs "--emit=link";
+           bs "--out-dir"; bs "out"; bs "--color"; bs "auto"] (bs "/w") with
+  | PROk p => compile_args p = [bs "--crate-name"; bs "foo"; bs "src/lib.rs"; bs "--crate-type"; bs "rlib"; bs "--emit"; bs "link";
+                                bs "--out-dir"; bs "out"; bs "--color"; bs "always"]
   | _ => False
   end.
 Proof. vm_compute. reflexivity. Qed.
